@@ -89,8 +89,10 @@ DEFS = {
         "measure": '(solver, initialisation mode, operation, which derived fields {full_F, full_W_H, full_W} were cached before the operation, previous operation)',
         "module": "worlds.c10", "level": "exploration",
         "stages": {
-            "quick": [{"name": "solver histories", "n": 24000, "wall": 55, "opts": {"chunk": 20}}],
-            "thorough": [{"name": "solver histories", "n": 600000, "wall": 840, "opts": {"chunk": 50}}],
+            "quick": [{"name": "solver histories", "n": 24000, "wall": 45, "opts": {"chunk": 20}},
+                      {"name": "MMSE solver, extreme powers", "n": 6000, "wall": 14, "opts": {"chunk": 20, "kind": "mmse", "extreme_powers": True}}],
+            "thorough": [{"name": "solver histories", "n": 600000, "wall": 720, "opts": {"chunk": 50}},
+                         {"name": "MMSE solver, extreme powers", "n": 120000, "wall": 150, "opts": {"chunk": 50, "kind": "mmse", "extreme_powers": True}}],
         },
         "rule": ("plan = one solver (closed form, alternating minimisation, minimum leakage, max SINR, MMSE) on a seeded K=2-4 user channel (closed form: K=3, Ns=N/2), unequal antennas, "
                  "1..min(Nr,Nt)-1 streams, initialisation mode, 1-60 iterations, scalar/vector/default power, and 2-12 operations from solve / randomizeF / set_precoders(F|full_F[,P]) / "
